@@ -201,6 +201,24 @@ fn c09_q_two_error_rows() {
     std::mem::forget(rg);
 }
 
+/// Header name seen through serde as a borrowed str: keeps its first byte (no String allocation).
+struct KKey(u8);
+impl<'de> Deserialize<'de> for KKey {
+    fn deserialize<D: Deserializer<'de>>(d: D) -> Result<Self, D::Error> {
+        struct V;
+        impl<'de> Visitor<'de> for V {
+            type Value = KKey;
+            fn expecting(&self, f: &mut fmt::Formatter) -> fmt::Result {
+                f.write_str("key")
+            }
+            fn visit_str<E: de::Error>(self, s: &str) -> Result<KKey, E> {
+                Ok(KKey(if s.is_empty() { 0 } else { s.as_bytes()[0] }))
+            }
+        }
+        d.deserialize_str(V)
+    }
+}
+
 /// Map access by header name: a record type that collects (first byte of key, value) pairs through MapAccess.
 struct KPairs {
     n: usize,
@@ -218,12 +236,11 @@ impl<'de> Deserialize<'de> for KPairs {
             fn visit_map<A: de::MapAccess<'de>>(self, mut m: A) -> Result<KPairs, A::Error> {
                 let mut out = KPairs { n: 0, k: [0; 3], v: [0; 3] };
                 while out.n < 3 {
-                    match m.next_key::<String>()? {
+                    match m.next_key::<KKey>()? {
                         Some(key) => {
-                            out.k[out.n] = key.as_bytes()[0];
+                            out.k[out.n] = key.0;
                             out.v[out.n] = m.next_value::<i64>()?;
                             out.n += 1;
-                            std::mem::forget(key);
                         }
                         None => break,
                     }
@@ -278,13 +295,13 @@ fn map_case(sel: u8) {
 #[kani::proof]
 #[kani::unwind(8)]
 #[kani::stub(alloc::fmt::format, stub_format)]
-fn c09_q_map_all_headers() {
+fn c09_t_map_all_headers() {
     map_case(0)
 }
 #[kani::proof]
 #[kani::unwind(8)]
 #[kani::stub(alloc::fmt::format, stub_format)]
-fn c09_q_map_selected_reversed() {
+fn c09_t_map_selected_reversed() {
     map_case(1)
 }
 
